@@ -130,7 +130,21 @@ def cs_symvar(it, a, k):
         return seq
     if not prov:
         return []
-    raise Unsupported("symvar of an SX expression over several symbol vectors")
+    # an SX expression over several symbol vectors: some number of scalar symbols (those it really
+    # depends on), of which nothing more is known
+    L = T.fresh("n_symvar", T.INT)
+    cur().axiom(T.le(0, L))
+    g = T.uf(f"symvar.entry!{L.args[0] if L.op == 'var' else L.uid}", [T.INT], T.REAL)
+
+    def some_entry(i):
+        i = T.lift(i, T.INT)
+        r = mk_vec("cs", "m", 1, lambda j, i=i: g(i), "fresh", symtype="SX")
+        r.buf.prov, r.buf.symid, r.buf.is_var = prov, ("entry-of-several", prov, i), True
+        return r
+
+    seq = SSeq(L, some_entry, f"symvar(several:{prov})")
+    seq.symtype = "SX"
+    return seq
 
 
 def arr_method(interp, a, name):
